@@ -4,6 +4,10 @@ EXTENDS Window, Sequences, Json, IOUtils, TLC
 
 Rec == ndJsonDeserialize(IOEnv.TRACE)
 
+CONSTANT Exact   \* FALSE: property level (the post-state is whatever the code reported; only the C06
+                 \*        statements are checked).  TRUE: additionally every step must be exactly the
+                 \*        code-shaped action of Window (a rejection there is MODEL-DRIFT, not a violation).
+
 VARIABLE i
 
 ObsOK(r) == /\ w' = r.w /\ fast' = r.fast /\ lastNak' = r.lastNak /\ lastInc' = r.lastInc
@@ -16,6 +20,13 @@ NewRun(r) ==    \* a fresh link exactly as connect_uplink creates it
     /\ w' = WDef /\ fast' = FALSE /\ lastNak' = 0 /\ lastInc' = 0 /\ conn' = FALSE /\ heard' = FALSE
     /\ now' = r.now /\ classic' = r.classic /\ act' = "Init" /\ arg' = 0
 
+Observe(r, name, a) ==
+    /\ w' = r.w /\ fast' = r.fast /\ lastNak' = r.lastNak /\ lastInc' = r.lastInc
+    /\ conn' = r.conn /\ heard' = r.heard /\ UNCHANGED <<now, classic>>
+    /\ act' = name /\ arg' = a
+
+Step(r, name, a, A) == IF Exact THEN A /\ ObsOK(r) ELSE Observe(r, name, a)
+
 TraceNext ==
     /\ i <= Len(Rec)
     /\ i' = i + 1
@@ -24,13 +35,13 @@ TraceNext ==
        \/ r.ev = "Advance" /\ Advance(r.d)
        \/ r.ev = "RttSample" /\ UNCHANGED vars
        \/ r.ev = "SetMode" /\ SetMode(r.c)
-       \/ r.ev = "Nak" /\ Nak /\ ObsOK(r)
-       \/ r.ev = "EarnedAck" /\ EarnedAck(r.n) /\ ObsOK(r)
-       \/ r.ev = "GlobalAck" /\ GlobalAck /\ ObsOK(r)
-       \/ r.ev = "RecoveryTick" /\ RecoveryTick(r.v) /\ ObsOK(r)
-       \/ r.ev = "SoftReset" /\ SoftReset /\ ObsOK(r)
-       \/ r.ev = "FullReset" /\ FullReset /\ ObsOK(r)
-       \/ r.ev = "Reg3" /\ Reg3 /\ ObsOK(r)
+       \/ r.ev = "Nak" /\ Step(r, "Nak", 0, Nak)
+       \/ r.ev = "EarnedAck" /\ Step(r, "EarnedAck", r.n, EarnedAck(r.n))
+       \/ r.ev = "GlobalAck" /\ Step(r, "GlobalAck", 0, GlobalAck)
+       \/ r.ev = "RecoveryTick" /\ Step(r, "RecoveryTick", 0, RecoveryTick(r.v))
+       \/ r.ev = "SoftReset" /\ Step(r, "SoftReset", 0, SoftReset)
+       \/ r.ev = "FullReset" /\ Step(r, "FullReset", 0, FullReset)
+       \/ r.ev = "Reg3" /\ Step(r, "Reg3", 0, Reg3)
 
 TraceSpec == TraceInit /\ [][TraceNext]_<<vars, i>>
 
